@@ -14,7 +14,7 @@ import ast
 from sa.astutil import ordn
 import itertools
 
-from sa import AnalysisError
+from sa import AnalysisError, ShapeNotRecognised
 from sa.astutil import unparse, in_block
 from sa.consts import fold, NotConst
 from sa.loader import walk_shallow
@@ -141,7 +141,8 @@ class _Enum(object):
             try:
                 val = fold(s.value, lambda n: env[n] if n in env else (_ for _ in ()).throw(NotConst(n)))
             except (NotConst, KeyError) as ex:
-                raise AnalysisError("configure_metadata_patterns: cannot fold return value (%s)" % ex)
+                raise ShapeNotRecognised("configure_metadata_patterns builds its result in a form the path enumeration cannot fold (%s): "
+                                         "the generated grammar is not decided" % ex)
             self.results.append((dict(assign), list(val)))
         elif isinstance(s, (ast.Expr, ast.Pass)):
             nxt(env, assign)
@@ -300,6 +301,15 @@ def rule_select(ctx):
     missing = EXPECTED_TESTS - set(got)
     extra = set(got) - EXPECTED_TESTS
     site = CFG_FN + "#selectors"
+    appends0 = [s for s in walk_shallow(fi.node) if isinstance(s, ast.Expr) and isinstance(s.value, ast.Call)
+                and isinstance(s.value.func, ast.Attribute) and s.value.func.attr == "append"]
+    if not appends0:
+        # the pattern list is not assembled by appends any more (a comprehension over alternatives, a table ...): the selector
+        # census and the order clause are written against the append form
+        ctx.undecided("HDR.SELECT", site, fi, fi.node, "configure_metadata_patterns does not assemble its patterns by list appends: the "
+                      "special-case selectors and their order are not decided in this form")
+        ctx.floor("HDR.SELECT", 0)
+        return
     problems = []
     for m in sorted(missing):
         near = [g for g in extra if g.split("(")[0][:12] == m.split("(")[0][:12] or ("find" in g and "find" in m)]
@@ -377,6 +387,7 @@ def rule_strip(ctx):
         if "items()" in ast.unparse(l.iter) or "groupdict" in ast.unparse(l.iter):
             gl = l
     delegated = None
+    hoisted = []
     if gl is None:
         # the groups are handed to something else (a table of per-field functions, a helper): not the recognised loop
         handed = [c for c in ast.walk(fi.node) if isinstance(c, ast.Call) and "groupdict" in ast.unparse(c)
@@ -426,6 +437,22 @@ def rule_strip(ctx):
                     problems.append("`%s` strips other characters than blanks" % unparse(s))
             elif isinstance(v, ast.Call) and isinstance(v.func, ast.Attribute) and v.func.attr in ("lstrip", "rstrip", "replace", "upper", "lower"):
                 problems.append("group post-processing `%s` is not the documented strip" % unparse(s))
+        # the unit rule may be hoisted behind the loop: `if d["unit"].endswith("."): d["unit"] = d["unit"].strip(".")`
+        hoisted = []
+        for s_ in walk_shallow(fi.node):
+            if isinstance(s_, ast.If) and not in_block(s_, [gl]) and ordn(s_) > ordn(gl) and not s_.orelse and len(s_.body) == 1 \
+                    and isinstance(s_.body[0], ast.Assign) and len(s_.body[0].targets) == 1:
+                t_, v_ = s_.body[0].targets[0], s_.body[0].value
+                if isinstance(t_, ast.Subscript) and isinstance(t_.slice, ast.Constant) and t_.slice.value == "unit" \
+                        and isinstance(v_, ast.Call) and isinstance(v_.func, ast.Attribute) and v_.func.attr == "strip" and len(v_.args) == 1 \
+                        and isinstance(v_.args[0], ast.Constant) and v_.args[0].value == "." and ast.unparse(v_.func.value) == ast.unparse(t_):
+                    if ast.unparse(s_.test) == "%s.endswith('.')" % ast.unparse(t_):
+                        unit_ok = True
+                        hoisted.append(s_.body[0])
+                    else:
+                        problems.append("dots are stripped from the unit under `%s`; only a unit that ends in '.' may lose its leading/"
+                                        "trailing dots" % unparse(s_.test))
+                        hoisted.append(s_.body[0])
         if not strip_ok:
             problems.append("matched groups are not stripped of surrounding whitespace")
         if not unit_ok and not any("dots are stripped" in x for x in problems):
@@ -433,7 +460,7 @@ def rule_strip(ctx):
     # nothing rewrites a field after the groups were taken over
     if gl is not None:
         for s_ in walk_shallow(fi.node):
-            if isinstance(s_, (ast.Assign, ast.AugAssign)) and not in_block(s_, [gl]) and ordn(s_) > ordn(gl):
+            if isinstance(s_, (ast.Assign, ast.AugAssign)) and not in_block(s_, [gl]) and ordn(s_) > ordn(gl) and not any(s_ is h_ for h_ in hoisted):
                 for t in (s_.targets if isinstance(s_, ast.Assign) else [s_.target]):
                     if isinstance(t, ast.Subscript) and isinstance(t.slice, ast.Constant) and t.slice.value in ("name", "unit", "value", "descr"):
                         problems.append("the field %r is rewritten after matching (`%s`): the text of a header line is no longer handed on "
